@@ -4,9 +4,9 @@
    event fields: op ("ctor","birth","pers","pix","fit"), r1 (birth range asked, ticks), r2 (persistence range asked), pz (pixel
    size asked, ticks; 0 if none), pts (fitted points as [birth, pers] in ticks, already in birth-persistence coordinates),
    lattice (0/1), obs = [ps, b0, b1, p0, p1, W, H] in 1/q half ticks, res = [rx, ry], shape = [sx, sy],
-   probes = [[i, j, [[ii, jj, mass_ppb], ...]]] : image of one unit-weight point at the centre of pixel (i,j) under a uniform
-   kernel of exactly one pixel; squares of the configured size aligned with the covered range <=> the image is the indicator
-   of that pixel.                                                                                                       *)
+   probes = [[i, j, [[ii, jj, mass_ppb], ...]]] : image of one unit-weight point placed tick/8 inside a corner of pixel (i,j) under a tiny
+   box kernel (side tick/16): the mesh has square pixels of the configured size aligned with the covered range only if all of the mass
+   lands in exactly that pixel, for all four corners.                                                                                                       *)
 EXTENDS Integers, Sequences, FiniteSets, TLC, FiniteSetsExt, Json, IOUtils, TLCExt
 Cases == JsonDeserialize(IOEnv.TRACE_FILE)
 VARIABLE k
